@@ -111,16 +111,37 @@ Definition k_default_mode (k : enc_kind) := match k with KB64 => b64_default_mod
 Definition k_default_name (k : enc_kind) := match k with KB64 => b64_default_name | KUU => uu_default_name end.
 Definition k_default_bs (k : enc_kind) := match k with KB64 => b64_default_bs | KUU => uu_default_bs end.
 Definition k_mode_mask (k : enc_kind) := match k with KB64 => b64_mode_mask | KUU => uu_mode_mask end.
+(* code variants detected by the translator (Gen/Codec.v): the pinned tree has all of them false;
+   they become true when the corresponding repair of fixes/C03-*.diff is present in the source *)
+Definition k_mode_fixed3 (k : enc_kind) := match k with KB64 => b64_mode_fixed3 | KUU => uu_mode_fixed3 end.
+Definition k_name_printable_only (k : enc_kind) :=
+  match k with KB64 => b64_name_printable_only | KUU => uu_name_printable_only end.
 
 (* state->mode after the optional "mode" option, state->name after the optional "name" option *)
 Definition opt_mode (k : enc_kind) (o : option (list N)) : N :=
   match o with None => k_default_mode k | Some s => N.land (atol8 s 0) (k_mode_mask k) end.
+(* variant k_name_printable_only: "if (*p < 0x20 || *p > 0x7e) return ARCHIVE_FAILED" over the
+   (signed char) bytes of the value, before the name is stored *)
+Definition name_rejected (k : enc_kind) (o : option (list N)) : bool :=
+  match o with
+  | None => false
+  | Some s => k_name_printable_only k && existsb (fun c => (c <? 32) || (126 <? c)) s
+  end.
 Definition opt_name (k : enc_kind) (o : option (list N)) : list N :=
-  match o with None => k_default_name k | Some s => s end.
+  match o with
+  | None => k_default_name k
+  | Some s => if name_rejected k o then k_default_name k else s
+  end.
+
+(* "%o" of the mode, or (variant k_mode_fixed3) "%o%o%o" of (mode>>6)&7, (mode>>3)&7, mode&7 *)
+Definition fmt_mode (k : enc_kind) (mode : N) : list N :=
+  if k_mode_fixed3 k
+  then fmt_o (N.land (N.shiftr mode 6) 7) ++ fmt_o (N.land (N.shiftr mode 3) 7) ++ fmt_o (N.land mode 7)
+  else fmt_o mode.
 
 (* "begin-base64 %o %s\n" / "begin %o %s\n" *)
 Definition enc_header (k : enc_kind) (mode : N) (name : list N) : list N :=
-  k_prefix k ++ fmt_o mode ++ [32] ++ name ++ [10].
+  k_prefix k ++ fmt_mode k mode ++ [32] ++ name ++ [10].
 
 (* open: bs = 65536; if (bpb > bs) bs = bpb; else if (bpb != 0) bs -= bs % bpb; *)
 Definition compute_bs (k : enc_kind) (bpb : N) : N :=
@@ -613,9 +634,24 @@ Definition bid_second (l : nat) (firstline : N) (b : list N) : N :=
                     | Some b2 =>
                         let len2 := (len1 - ll)%nat in
                         (* optional check-sum / MINIX padding character *)
-                        let b3 := if (len2 - nl =? 1)%nat &&
-                                     (uuch (at_ b2 0) || ((97 <=? at_ b2 0) && (at_ b2 0 <=? 122)))
-                                  then skipn 1 b2 else b2 in
+                        let skip := (len2 - nl =? 1)%nat &&
+                                    (uuch (at_ b2 0) || ((97 <=? at_ b2 0) && (at_ b2 0 <=? 122))) in
+                        let b3 := if skip then skipn 1 b2 else b2 in
+                        let len3 := if skip then (len2 - 1)%nat else len2 in
+                        if rd_uu_bid_empty_fix && (ll =? 0)%nat && (len3 - nl =? 0)%nat then
+                          (* variant: a zero-length line; "end" must follow (bid_get_line on the
+                             next line; an unterminated "end" at the very end of the stream makes
+                             the read-more step fail and the bid is 0) *)
+                          match after with
+                          | [] => 0
+                          | _ => match get_line after 0 with
+                                 | Some (len4, S nl4) =>
+                                     if (len4 - S nl4 =? 3)%nat && starts_with lit_end after
+                                     then firstline + 30 else 0
+                                 | _ => 0
+                                 end
+                          end
+                        else
                         let b4 := skipn nl b3 in
                         match after with
                         | [] => 0
@@ -625,6 +661,9 @@ Definition bid_second (l : nat) (firstline : N) (b : list N) : N :=
             | [] => 0
             end
         | 13%nat =>
+            if rd_b64_bid_empty_fix && (len - nl =? 4)%nat && starts_with [61; 61; 61; 61] b
+            then firstline + 40               (* variant: the end marker follows the header *)
+            else
             match bid_b64_chars (len - nl) b with
             | None => 0
             | Some b2 =>
